@@ -345,9 +345,11 @@ class Zeroconf(QuietLogger):
             info.host_ttl = ttl
             info.other_ttl = ttl
 
-        info.set_server_if_missing()
         await self.async_wait_for_start()
         await self.async_check_service(info, allow_name_change, cooperating_responders, strict)
+        # Only now: a service without a host name of its own uses the name
+        # it ends up with, not the one the conflict was found for
+        info.set_server_if_missing()
         self.registry.async_add(info)
         return asyncio.ensure_future(self._async_broadcast_service(info, _REGISTER_TIME, None))
 
